@@ -12,8 +12,11 @@ package pluginconfig
 //@ ensures [decode-or-validation-failure-is-returned] iff(result != nil, result_of(config.DecodeAndValidate, 0) != nil)
 
 // A nested plugin is {type: <name>, ...settings}: exactly one "type" key with a string value, the rest are the settings.
+// The user's settings are left as given: they are decoded again for every product of a factory, so the "type" key is
+// removed from a copy only.
 //@ func parseConf
 //@ props C17 C18
+//@ modifies nothing
 //@ loop 0 invariant imp(err == nil, true)
 //@ ensures [map-expected] imp(result_of(toStringKeyMap, 1) != nil, err == result_of(toStringKeyMap, 1))
 //@ ensures [a-filler-is-returned-on-success] imp(err == nil, fillConf != nil)
@@ -37,8 +40,12 @@ package pluginconfig
 
 // Only maps with string keys are configurations.
 //@ func toStringKeyMap
-//@ props C17 C13
-//@ loop 0 invariant out != nil
+//@ props C17 C13 C18
+//@ modifies nothing
+//@ ensures [a-map-of-its-own-never-the-caller-s] imp(err == nil, fresh(out))
+//@ loop 0 invariant out != nil && fresh(out)
+//@ loop 0 step [every-setting-is-copied] has(out, rangekey) && out[rangekey] == strKeyData[rangekey]
+//@ loop 1 invariant out != nil
 //@ ensures [non-map-is-an-error] imp(!typeis(data, map[string]interface{}) && !typeis(data, map[interface{}]interface{}), err != nil)
 
 // Both plugin hooks are installed (components and component factories).
